@@ -13,7 +13,7 @@ from mc import util
 
 ID = 'C18'
 LEVEL = 'exploration'
-RULE = ('expressions = 22 forms (call with positional / keyword / starred arguments, attribute, subscript, 2- and 3-part slices, '
+RULE = ('expressions = 25 forms (call with positional / keyword / starred arguments, attribute, subscript, 2- and 3-part slices, '
         'binary, unary, single compare, list / tuple / set / dict display, displays with * and ** unpacking, and the lazy forms and / or / ifexp / lambda / '
         'comprehension / chained compare) with a traced call t(i) in every operand position; depth 2 = one nested form at each '
         'operand position (thorough: depth 3); statement positions = expr, assign to name / attribute / subscript / tuple, '
@@ -44,6 +44,8 @@ FORMS = [
     ('and_trivial', '(x and y)', 0, True), ('ifexp_trivial', '(x if y else x)', 0, True),
     # Ellipsis subscript of a plain name
     ('ellip', 'x[...]', 0, False),
+    # user identifiers spelled like the placeholders of the transformer's own templates
+    ('tplname', '(temp_name + %s)', 1, False), ('tplexpr', '(expr + %s)', 1, False), ('tplattr', '%s.temp_name', 1, False),
 ]
 STRICT_FORMS = [f for f in FORMS if not f[3]]
 LAZY_FORMS = [f for f in FORMS if f[3]]
@@ -374,7 +376,7 @@ class EXC(Exception):
 
 def run(code_obj, bits):
   env = Env(bits)
-  g = {'t': env.t, 'kwd': env.kwd, 'EXC': EXC, 'fuel': env.fuel_fn}
+  g = {'t': env.t, 'kwd': env.kwd, 'EXC': EXC, 'fuel': env.fuel_fn, 'temp_name': V(env, 'g_temp_name'), 'expr': V(env, 'g_expr')}
   exec(code_obj, g)  # pylint:disable=exec-used
   x0, y0 = V(env, 'x0'), V(env, 'y0')
   try:
